@@ -97,7 +97,7 @@ def run(ctx):
             finals = [e for e in events[lo:hi] if e.get("ev") == "final"]
             if at < len(events) and events[at].get("ev") == "final" and len(finals) == 2 and events[at] is finals[0]:
                 f1, f2 = finals[0]["cm"], finals[1]["cm"]
-                if f1 != f2:
+                if f1 != f2 or (finals[0].get("anom") and not finals[1].get("anom")):
                     # what the still-open database returns differs from what the same files
                     # return after close + reopen: in-memory pointer offsets / offset tables
                     # went stale under concurrent delete + garbage collection
